@@ -55,6 +55,7 @@ mutual
     | append (x : String) (e : E)
     | ret (e : E)
     | print (e : E)
+    | print2 (a b : E)                   -- `print(a, b)`: both values on one line, separated by a space
     | exprS (e : E)
     | brk
     | cont
@@ -267,6 +268,8 @@ mutual
       | _, _ => .stop .stuck o
     | .ret e => (evalE call1 call2 env out e).bind fun v o => .ok (.ret v, env) o
     | .print e => (evalE call1 call2 env out e).bind fun v o => .ok (.next, env) (o ++ [showV v])
+    | .print2 a b => (evalE call1 call2 env out a).bind fun v o1 => (evalE call1 call2 env o1 b).bind fun w o2 =>
+        .ok (.next, env) (o2 ++ [showV v ++ " " ++ showV w])
     | .exprS e => (evalE call1 call2 env out e).bind fun _ o => .ok (.next, env) o
     | .brk => .ok (.brk, env) out
     | .cont => .ok (.cont, env) out
@@ -314,6 +317,7 @@ mutual
     | .append x e => .append x (desugarE e)
     | .ret e => .ret (desugarE e)
     | .print e => .print (desugarE e)
+    | .print2 a b => .print2 (desugarE a) (desugarE b)
     | .exprS e => .exprS (desugarE e)
     | .brk => .brk
     | .cont => .cont
